@@ -3,7 +3,7 @@ CONSTANTS
   Handlers = {"h1"}
   MaxPre = 1
   MaxResp = 2
-  Ids = {1, 2, 3}
+  Ids = {1, 2}
   Chain = TRUE
   ClearOnRun = TRUE
   Export = FALSE
